@@ -49,5 +49,9 @@ CONTROLS = [('swap the harmonic-mean weights',
   'return i.clamp(0, self.x.numel() - 1)'),
  ('strict end-slope limiter (the repaired defect)',
   'emu_base/math/pchip_torch.py',
-  'mask_sign_change = d_end * s_l <= 0',
-  'mask_sign_change = d_end * s_l < 0')]
+  'mask_sign_change = ((d_end <= 0) | (s_l <= 0)) & ((d_end >= 0) | (s_l >= 0))',
+  'mask_sign_change = ((d_end < 0) | (s_l < 0)) & ((d_end > 0) | (s_l > 0))'),
+ ('same-sign test by a product that underflows (the repaired defect)',
+  'emu_base/math/pchip_torch.py',
+  'mask_same_sign = ((delta_l > 0) & (delta_r > 0)) | ((delta_l < 0) & (delta_r < 0))',
+  'mask_same_sign = (delta_l * delta_r) > 0')]
